@@ -5,6 +5,7 @@ import (
 	"encoding/json"
 	"errors"
 	"fmt"
+	"os"
 	"sort"
 	"sync"
 	"time"
@@ -12,8 +13,7 @@ import (
 	"go.miragespace.co/specter/spec/chord"
 	"go.miragespace.co/specter/spec/protocol"
 
-	"github.com/avast/retry-go/v4"
-
+	"verif/engine/e2"
 	"verif/engine/hmain"
 	"verif/engine/report"
 )
@@ -21,7 +21,7 @@ import (
 // C15 — the retrying KV client retries only retryable failures, boundedly (spec/chord/retry.go).
 
 func init() {
-	props["C15"] = hmain.Prop{Level: "model_checking", Run: c15, Replay: c15Replay}
+	props["C15"] = hmain.Prop{Level: "model_checking", Run: c15, Worker: e2.Worker(c15cLookup), Replay: c15Replay}
 }
 
 // one scripted result of the underlying node
@@ -354,7 +354,10 @@ func c15letters(script []c15sym) string {
 }
 
 func c15(c *report.Check) {
-	retry.VerifAfter = func(time.Duration) <-chan time.Time { return c15closed } // waits between attempts are free
+	// waits between attempts are free: retry.VerifAfter is set in c15conc.go (init)
+	if os.Getenv("VERIF_DEBUG_SCN") != "" {
+		c15conc(c)
+	}
 	alpha := c15alphabet(c.Thorough())
 	maxAttempts := 3
 	if c.Thorough() {
@@ -452,18 +455,25 @@ func c15(c *report.Check) {
 	c.Set("rule", fmt.Sprintf("for every KV method (12) x attempts 1..%d: every result script of length attempts+1 over the %d-symbol alphabet (covers all shorter sequences as prefixes; the extra element detects an attempt beyond the limit); class = method x outcome shape x attempts", maxAttempts, len(alpha)))
 	c.Set("samples", dist.Samples)
 	c.Set("exhaustive", true)
+	c.Set("sequential_evaluations", evals)
+	c15conc(c)
+	if n, ok := c.Coverage["traces_validated_against_impl"].(int); ok {
+		c.Set("evaluations", evals+n)
+	}
 	c.Assume("the wait between attempts is replaced by an already-fired timer (retry.VerifAfter hook in the patched retry-go copy); the context is never cancelled",
 		"Import is part of chord.KV but is not wrapped by retry.go (it is passed through to the node): for it only the bounding clauses are demanded (re-issued only after a retryable error, at most `attempts` calls, result of the last call returned), not that retries happen",
 		"the value returned together with an error is not compared (the statement does not define it)")
 }
 
 func c15Replay(c *report.Check, raw []byte) {
+	if c15concReplay(c, raw) {
+		return
+	}
 	var cs c15case
 	if err := json.Unmarshal(raw, &cs); err != nil {
 		c.Internal("replay: " + err.Error())
 		return
 	}
-	retry.VerifAfter = func(time.Duration) <-chan time.Time { return c15closed }
 	alpha := c15alphabet(true)
 	var script []c15sym
 	for _, l := range cs.Script {
